@@ -53,6 +53,9 @@ type Strategy struct {
 	// "evals-first" = evaluations, then commitment (same block); "evals-block-first" = the
 	// evaluations one block before the commitment.  Independent of the contents.
 	Order string `json:"order,omitempty"`
+	// UnaskedTo: parties that did not accuse and are named as accusers in the apology all the same
+	// (Unasked names every other member); the values follow Apology (correct / wrong).
+	UnaskedTo []int `json:"unasked_to,omitempty"`
 	// TVote: "" = the vote is sent after the eon is finalised; "early" = in the block after the eon
 	// started (t Byzantine "failed" votes cast before the honest ones make shuttermint retry).
 	TVote string `json:"t_vote,omitempty"`
@@ -350,6 +353,12 @@ func execute(plan Plan, servers *dkgrig.Servers) (*runLog, error) {
 								seen[addr(m)] = true
 								accusers = append(accusers, addr(m))
 							}
+						}
+					}
+					for _, m := range s.UnaskedTo {
+						if m != s.Party && plan.memberIdx(m) >= 0 && !seen[addr(m)] {
+							seen[addr(m)] = true
+							accusers = append(accusers, addr(m))
 						}
 					}
 					var vals []*big.Int
@@ -971,6 +980,13 @@ func randomPlan(r *vh.RNG) Plan {
 		s.Vote = vh.Pick(r, "true", "false", "none")
 		s.CheckIn = r.Chance(3, 4)
 		s.Unasked = r.Chance(1, 5)
+		if r.Chance(1, 4) {
+			for _, m := range p.Members {
+				if m != party && r.Chance(1, 2) {
+					s.UnaskedTo = append(s.UnaskedTo, m)
+				}
+			}
+		}
 		p.Byz = append(p.Byz, s)
 	}
 	p.MaxEons = 1 + r.Intn(2)
@@ -1020,6 +1036,15 @@ func forcedPlans() []Plan {
 		mk(func(s *Strategy) { s.Evals[1] = "wrong"; s.TApo = "early" }),
 		mk(func(s *Strategy) { s.Unasked = true; s.Apology = "wrong" }),
 		mk(func(s *Strategy) { s.Unasked = true }),
+		// a dealer nobody accuses publishes an unsolicited apology naming one honest keyper / the
+		// other / both, with a wrong or the right evaluation
+		mk(func(s *Strategy) { s.UnaskedTo = []int{0}; s.Apology = "wrong" }),
+		mk(func(s *Strategy) { s.UnaskedTo = []int{1}; s.Apology = "wrong" }),
+		mk(func(s *Strategy) { s.UnaskedTo = []int{0, 1}; s.Apology = "wrong" }),
+		mk(func(s *Strategy) { s.UnaskedTo = []int{0} }),
+		mk(func(s *Strategy) { s.UnaskedTo = []int{1} }),
+		mk(func(s *Strategy) { s.UnaskedTo = []int{1}; s.Apology = "wrong"; s.Evals[0] = "wrong" }),
+		mk(func(s *Strategy) { s.UnaskedTo = []int{0}; s.Apology = "wrong"; s.TApo = "early" }),
 		mk(func(s *Strategy) { s.Vote = "false" }),
 		mk(func(s *Strategy) { s.CheckIn = false }),
 		mk(func(s *Strategy) { s.Commit = "dup"; s.Evals[0] = "wrong" }),
@@ -1115,7 +1140,7 @@ func main() {
 	run := vh.Start("Verif.Corr.C07", 12)
 	run.SetPreamble("From Verif Require Import Model.DKGPure Model.DKGDriver.\nOpen Scope N_scope.")
 	defer run.Finish()
-	run.Rule = "complete DKG runs on n real keyper stacks (smobserver, fx message sender, puredkg, ECIES, one pgfake database each) over tmfake around the real shuttermint app; Byzantine parties from the alphabet eval {correct, wrong, none} per victim x commitment {correct, none, wrong degree, duplicate} x order of the two dealing messages {commitment first, evaluations first, evaluations a block earlier} x accusation subsets x apology {correct, wrong, none, unasked} x timing {in phase, late, early} x vote; slow honest parties; permuted / partial keyper sets; forced: all-honest n=3..5, each single deviation for n=3,t=2, a failing DKG with restart, all-honest runs with every transaction alone in its block and one keyper restarted after the k-th block of the eon (k = 1..16, two parties), retried eons (a genuinely failed first eon; t Byzantine failure votes cast early) with a Byzantine dealer in the retry and an honest keyper restarted after each block of the retried eon; thorough: the exhaustive one-Byzantine tables for n=3,t=2 (both message orders), n=4,t=2 and n=4,t=3; non-trivial = a Byzantine or slow party took part and at least one honest keyper finished the DKG; distinct by the JSON rendering of the plan"
+	run.Rule = "complete DKG runs on n real keyper stacks (smobserver, fx message sender, puredkg, ECIES, one pgfake database each) over tmfake around the real shuttermint app; Byzantine parties from the alphabet eval {correct, wrong, none} per victim x commitment {correct, none, wrong degree, duplicate} x order of the two dealing messages {commitment first, evaluations first, evaluations a block earlier} x accusation subsets x apology {correct, wrong, none, unasked to all / to a subset} x timing {in phase, late, early} x vote; slow honest parties; permuted / partial keyper sets; forced: all-honest n=3..5, each single deviation for n=3,t=2, a failing DKG with restart, all-honest runs with every transaction alone in its block and one keyper restarted after the k-th block of the eon (k = 1..16, two parties), retried eons (a genuinely failed first eon; t Byzantine failure votes cast early) with a Byzantine dealer in the retry and an honest keyper restarted after each block of the retried eon; thorough: the exhaustive one-Byzantine tables for n=3,t=2 (both message orders), n=4,t=2 and n=4,t=3; non-trivial = a Byzantine or slow party took part and at least one honest keyper finished the DKG; distinct by the JSON rendering of the plan"
 
 	var plans []Plan
 	if run.Replay != "" {
